@@ -120,7 +120,8 @@ namespace Givaro {
     inline typename MOD::Element & MOD::div
     (Element &x, const Element &y, const Element &z) const
     {
-        return mulin(inv(x, z), y);
+        Element iz;
+        return mul(x, y, inv(iz, z));
     }
 
     TMPL
